@@ -220,10 +220,76 @@ def run(case):
 
 
 from vlib import c02xy
+from vlib import xylab
+import pandas as pd
+
+
+@st.composite
+def tail_cases(draw, tier="quick"):
+    """Default fit horizon: no transformer_end, no end bound. The feature table then extends beyond the last price date;
+    the rows after it are dated after every step of the episode."""
+    c = draw(xylab.cases(tier))
+    c["transformer_end"] = None
+    c["end"] = None
+    c["fold2"] = None
+    c["tail_rows"] = draw(st.integers(1, 8))
+    c["tail_seed"] = draw(st.integers(0, 2 ** 20))
+    c["tail_scale"] = draw(st.sampled_from([3.0, 30.0, -20.0]))
+    if c["transformer"] is None:
+        c["transformer"] = draw(st.sampled_from(["z-score", "z-score", None]))
+    return c
+
+
+def run_tail(case):
+    """Two feature tables that agree up to the last price date t and differ only in rows dated after t: every output of
+    the whole episode (which ends at or before t) must be bit-identical."""
+    res = Result()
+    t = xylab.tables_from_case(case)
+    X, Y = t["X"], t["Y"]
+    last = Y.dropna(how="all").index[-1]
+    step = pd.Timedelta(days=1)
+    idx = [last + step * (k + 1) for k in range(case["tail_rows"])]
+    nx = X.shape[1]
+
+    def tail(mult):
+        rows = [[mult * ((case["tail_seed"] % 7) + 1 + k + 0.5 * j) for j in range(nx)] for k in range(len(idx))]
+        return pd.DataFrame(rows, index=pd.DatetimeIndex(idx), columns=X.columns)
+
+    X1 = pd.concat([X[X.index <= last], tail(1.0)])
+    X2 = pd.concat([X[X.index <= last], tail(case["tail_scale"])])
+    outs = []
+    for Xv in (X1, X2):
+        env = xylab.build_env(case, {"X": Xv, "Y": Y, "rate": t["rate"]})
+        np.random.seed(case["tail_seed"])
+        obs = env.reset(case["fold"] if case["folds"] is not None else "training-set")
+        seq = [obs.tobytes().hex()]
+        done, k = False, 0
+        while not done and k < 400:
+            w = np.array([0.0 if np.isnan(env.exchange[c_].bid_price) else x for c_, x in
+                          zip(env.action_space.contracts, case["weights"][k % len(case["weights"])])], dtype=float)
+            obs, reward, done, info = env.step(w)
+            k += 1
+            seq.append((obs.tobytes().hex(), float(reward).hex() if reward == reward else "nan", bool(done),
+                        float(env.broker.net_liquidation_value(raise_if_broke=False)).hex(), str(env.now())))
+        outs.append((seq, env.X.loc[:last].values.tobytes().hex(), float(env._reward.scale).hex()))
+    a, b = outs
+    if a[2] != b[2]:
+        res.fail("the reward scale depends on feature/price rows dated after the last step")
+    if a[1] != b[1]:
+        res.fail("the published feature table up to the last price date %s depends on feature rows dated after it "
+                 "(no transformer_end given: the fit horizon must default to the end of the tradable data)" % last)
+    elif a[0] != b[0]:
+        k = next(i for i, (x, y) in enumerate(zip(a[0], b[0])) if x != y)
+        res.fail("outputs of call %d differ between two feature tables that agree up to the last price date" % k)
+    res.nontrivial = case["transformer"] is not None and len(a[0]) > 2
+    res.tag("transformer=%s" % case["transformer"], "tail-rows-after-the-last-price-date")
+    return res
 
 PARTS = [
     Part("events", strategy=lambda tier: st.one_of(cases(tier), cases(tier), cases(tier), ruin_cases(tier)), run=run, quick=3000, thorough=150000),
     Part("xy", strategy=lambda tier: c02xy.cases(tier), run=c02xy.run_xy, quick=640, thorough=9600),
+    Part("xy-tail", strategy=lambda tier: tail_cases(tier), run=run_tail, quick=300, thorough=6000),
 ]
-RULE = RULE.replace("tabular: see part xy. ", "xy (tabular API): " + c02xy.RULE + " ")
+RULE = RULE.replace("tabular: see part xy. ", "xy (tabular API): " + c02xy.RULE + " xy-tail: default fit horizon (no transformer_end, no end): "
+                    "feature rows dated after the last price date are rewritten; the whole episode must be bit-identical. ")
 ASSUMPTIONS = ASSUMPTIONS + list(c02xy.ASSUMPTIONS)
